@@ -247,7 +247,14 @@ def fam_gosub(tier, rng):
 
 
 def failing(b, kind):
-    """a statement that fails while Q% = 0 and succeeds once Q% = 1 (the handler repairs Q%)"""
+    """a statement that fails while Q% = 0 and succeeds once Q% = 1 (the handler repairs Q%); the statement carries the
+    mark `fails` (read by lib/features.py only)"""
+    st, code = _failing(b, kind)
+    st["fails"] = True
+    return st, code
+
+
+def _failing(b, kind):
     q = var("Q", "I")
     if kind == "div":
         return b.let(var("Z", "I"), bin_("/", lit("I", 6), q)), 11
@@ -592,6 +599,93 @@ def fam_partial(tier, rng):
 
 
 FAMILIES.append(fam_partial)
+
+
+def fam_resume_label_proc(tier, rng):
+    """an error inside a SUB (one or two calls deep, also a STATIC one, also with a GOSUB pending there), answered by RESUME
+    label: the module goes on at the label with ITS variables, the SUB can be called again, a GOSUB that was pending in the
+    module can still be returned from, and later errors are reported as errors of the module"""
+    out = []
+    for kind in ("div", "subscript", "builtin"):
+        for depth in (1, 2):
+            for static in (False, True):
+                for extra in ("plain", "gosub-in-main", "gosub-in-sub", "for-in-sub"):
+                    b = B()
+                    a = var("A", "I")
+                    f, code = failing(b, kind)
+                    body = [b.dim("AR", "I", [{"lo": lit("I", 0), "hi": lit("I", 3), "nolo": False}]), b.let(var("M", "I"), lit("I", 32767)),
+                            b.let(var("LOC", "I"), bin_("+", var("LOC", "I"), lit("I", 1))), tok(b, "in", var("LOC", "I"))]
+                    if extra == "gosub-in-sub":
+                        body += [b.gosub("SL"), tok(b, "notreached"), b.exit("sub"), b.label("SL"), f, b.ret()]
+                    elif extra == "for-in-sub":
+                        body += [b.for_(var("J", "I"), lit("I", 1), lit("I", 3), None, [f, tok(b, "j", var("J", "I"))], hasstep=False)]
+                    else:
+                        body += [f, tok(b, "notreached")]
+                    subs = [sub("P", [], body, static=static)]
+                    call = b.call("P", [])
+                    if depth == 2:
+                        subs.append(sub("OUTER", [], [b.let(var("OL", "I"), lit("I", 5)), b.call("P", []), tok(b, "outer")]))
+                        call = b.call("OUTER", [])
+                    n = var("N", "I")
+                    main = [b.onerror("goto", "H"), b.let(a, lit("I", 5))]
+                    core = [b.label("AGAIN"), b.let(n, bin_("+", n, lit("I", 1))), tok(b, "round", n, a),
+                            b.if_([(bin_("<", n, lit("I", 3)), [call])]), tok(b, "done", n, a)]
+                    if extra == "gosub-in-main":
+                        main += [b.gosub("G"), tok(b, "back", a), b.end(), b.label("G")] + core + [b.ret()]
+                    else:
+                        main += core + [b.end()]
+                    main += [b.label("H"), tok(b, "h", {"k": "err"}, a), b.let(a, bin_("+", a, lit("I", 1))), b.resume("label", "AGAIN")]
+                    out.append({"fam": "trap-resume-label-in-proc:%s/%d/%s/%s" % (kind, depth, "static" if static else "plain", extra), "prog": prog(main, subs)})
+    return out
+
+
+FAMILIES.append(fam_resume_label_proc)
+
+
+def fam_resume_label_out(tier, rng):
+    """RESUME label out of blocks of the module: the failing statement stands inside a FOR body / a SELECT CASE block / both,
+    nested in an outer FOR; the label stands inside the outer FOR behind the inner block, in front of it, or behind the outer FOR"""
+    out = []
+    for kind in ("div", "subscript"):
+        for inner in ("for", "select", "for+select", "select+for", "while", "proc-for"):
+            for where in ("behind-inner", "before-inner", "behind-outer"):
+                b = B()
+                i, j = var("I", "I"), var("J", "I")
+                f, code = failing(b, kind)
+                core = [f, tok(b, "ok", i)]
+                subs = []
+
+                def wrap1(k, body):
+                    if k == "for":
+                        return [b.for_(j, lit("I", 1), lit("I", 3), None, body + [tok(b, "j", j)], hasstep=False)]
+                    if k == "select":
+                        return [b.select(lit("I", 2), [([eqt(lit("I", 2))], body)], [tok(b, "else")])]
+                    return [b.let(var("W", "I"), lit("I", 0)), b.while_(bin_("<", var("W", "I"), lit("I", 2)), [b.let(var("W", "I"), bin_("+", var("W", "I"), lit("I", 1)))] + body)]
+                if inner == "proc-for":
+                    subs = [sub("P", [], [b.dim("AR", "I", [{"lo": lit("I", 0), "hi": lit("I", 3), "nolo": False}])] + wrap1("for", core))]
+                    blk = [b.call("P", [])]
+                else:
+                    blk = core
+                    for k in reversed(inner.split("+")):
+                        blk = wrap1(k, blk)
+                pre = [b.dim("AR", "I", [{"lo": lit("I", 0), "hi": lit("I", 3), "nolo": False}])]
+                lab = [b.label("L"), tok(b, "at-l", i)]
+                if where == "behind-inner":
+                    body = [tok(b, "i", i)] + blk + lab
+                    tail = []
+                elif where == "before-inner":
+                    body = [tok(b, "i", i)] + lab + blk
+                    tail = []
+                else:
+                    body = [tok(b, "i", i)] + blk
+                    tail = lab
+                main = pre + [b.onerror("goto", "H"), b.for_(i, lit("I", 1), lit("I", 2), None, body, hasstep=False)] + tail + \
+                       [tok(b, "done", i), b.end(), b.label("H"), tok(b, "h", {"k": "err"}), b.let(var("Q", "I"), lit("I", 1)), b.resume("label", "L")]
+                out.append({"fam": "trap-resume-label-out:%s/%s/%s" % (kind, inner, where), "prog": prog(main, subs)})
+    return out
+
+
+FAMILIES.append(fam_resume_label_out)
 
 
 def cases(tier, seed):
